@@ -185,6 +185,17 @@ def run_property(prop, tier="quick", seed=0, repo_root=None, only=None):
                         status["violations"].append((what, path, True))
             except Exception:
                 status["errors"].append("bounded stand-in crashed: " + traceback.format_exc(limit=6))
+        # CPython cross-check of the executor's encoding (soundness guard of the generator itself)
+        cross = None
+        if getattr(pm, "CROSSCHECK", False) and not only:
+            try:
+                from . import crosscheck
+                n_cc, pb_cc = crosscheck.run(ctx)
+                cross = dict(inputs=n_cc, disagreements=len(pb_cc), samples=pb_cc[:3])
+                if pb_cc:
+                    status["errors"].append("executor disagrees with CPython on %d of %d concrete inputs, e.g. %r" % (len(pb_cc), n_cc, pb_cc[0]))
+            except Exception as e_:
+                cross = dict(skipped="not applicable to this tree: %r" % (e_,))
         for name in status["undecided"]:
             status["degraded"].append("obligation undecided: " + name)
         # ------------------------------------------------------------------ report
@@ -240,6 +251,8 @@ def run_property(prop, tier="quick", seed=0, repo_root=None, only=None):
             explanation=getattr(pm, "EXPLANATION", ""),
             source_sha={rel: mi.sha for rel, mi in ctx.repo.modules.items() if rel in getattr(pm, "FILES", [])},
         )
+        if cross is not None:
+            cov["executor_vs_cpython"] = cross
         if bounded is not None:
             cov["bounded"] = {k: v for k, v in bounded.items() if k != "violations"}
             cov["evaluations"] = bounded.get("evaluations", 0)
